@@ -35,7 +35,14 @@ def corpus_packages(tier):
     """always-on programs: identity / absorbing constants against trap values (see fraggen.identity_trap_corpus).
     quick: the division / modulo / shift families and the reverting cases; thorough: everything"""
     packs = fraggen.identity_trap_corpus("z", full=(tier != "quick"))
-    return [("z%02d" % i, gens) for i, gens in enumerate(packs)]
+    out = [("z%02d" % i, gens) for i, gens in enumerate(packs)]
+    out += [("b%02d" % i, gens) for i, gens in enumerate(fraggen.boundary_corpus("b", full=(tier != "quick")))]
+    return out
+
+def search_packages():
+    """the search run when C01's proof / T-gen no longer checks: every boundary split, every identity/trap pair"""
+    return ([("sb%02d" % i, g) for i, g in enumerate(fraggen.boundary_corpus("sb", full=True))]
+            + [("sz%02d" % i, g) for i, g in enumerate(fraggen.identity_trap_corpus("sz", full=True))])
 
 def package_source(gens):
     return "library;\n\n" + "\n".join(g.p.sway() for g in gens)
